@@ -11,7 +11,7 @@
 #include "../fw/hx.h"
 #include "../fw/simbus.h"
 #include "../fw/cfgmodel.h"
-#include "/repo/include/bidib.h"
+#include "include/bidib.h"
 #include <stdio.h>
 #include <stdlib.h>
 #include <string.h>
